@@ -173,10 +173,10 @@ def _c05():
 def _c09():
     class_c, mapping_c, mf = _names()
     return (DEC_PRIM + DEC_TABLE + [FRM + 'frame_parts', FRM + '_unmarshal_protocol_header_frame', FRM + '_unmarshal_body_frame',
-                        (FRM + 'unmarshal', UNMARSHAL_RAISES | {'method', 'content-header'})]
-            + [(n, {'anything-else'}) for n in class_c.names('unmarshal')]
+                        (FRM + 'unmarshal', UNMARSHAL_RAISES | {'method', 'content-header', '*raises*'})]
+            + [(n, {'anything-else', '*raises*'}) for n in class_c.names('unmarshal')]
             + mf.names('unmarshal_method_frame')
-            + [(BPN + 'unmarshal', {'anything-else'}), (CHN + 'unmarshal', {'anything-else'}),
+            + [(BPN + 'unmarshal', {'anything-else', '*raises*'}), (CHN + 'unmarshal', {'anything-else', '*raises*'}),
                (CHN + '_get_flags', {'three-or-more-flag-words', 'flag-words-cut-short'}), FRM + '_unmarshal_header_frame',
                CHN + '__init__', 'pamqp.commands.Basic.Properties.__init__'])
 
@@ -260,7 +260,8 @@ PROPS = {
                                       # every route by which a timestamp reaches / leaves those two: their contracts state the
                                       # zone-independent octets / instant, so a conversion added on the way fails them
                                       ENC + 'encode_table_value', DEC + 'embedded_value', (BPN + 'marshal', {'encoded'}),
-                                      (BPN + 'unmarshal', {'grammar-valid-properties'})], floor=30,
+                                      (BPN + 'unmarshal', {'grammar-valid-properties'}),
+                                      'pamqp.commands.Basic.Properties.__init__'], floor=30,
                     assumptions=['A5: classification of library functions: calendar.timegm, aware datetime.timestamp(), '
                                  'replace(tzinfo=utc), fromtimestamp(tz=utc) are host-zone independent; time.mktime, naive '
                                  'timestamp(), fromtimestamp() without tz, astimezone() depend on LOCAL_OFFSET, which is an '
@@ -313,14 +314,14 @@ PROPS = {
                     lemmas=[L + 'c18_body_roundtrip', L + 'c18_body_len', L + 'c18_heartbeat', L + 'c18_protocol_header'],
                     ground=['C18.heartbeat-constant'], floor=200),
     'C20': PropSpec('C20', contracts=FRAME_ENV + [(FRM + 'unmarshal', {'body', 'method', 'content-header', 'heartbeat'})], lemmas=[L + 'c20_peek_then_read', L + 'c20_peek_low_level'], floor=200),
-    'C14': PropSpec('C14', ground=['C14.catalogue', 'C14.properties'], floor=1200, exhaustive=True,
+    'C14': PropSpec('C14', ground=['C14.catalogue', 'C14.properties', 'env.import-state'], floor=1200, exhaustive=True,
                     assumptions=['the specification table spec/tables.py is a hand transcription (trusted artefact)',
                                  'tools/codegen.py is not executed (needs network); the property is about the shipped module']),
-    'C17': PropSpec('C17', ground=['C17.reply-codes', 'C17.constants'], floor=100, exhaustive=True,
+    'C17': PropSpec('C17', ground=['C17.reply-codes', 'C17.constants', 'C17.table-survives-use', 'env.import-state'], floor=100, exhaustive=True,
                     assumptions=['the reply-code table in spec/tables.py is a hand transcription (trusted artefact)']),
     'C11': PropSpec('C11', contracts=C11_CONE + [ENC + 'encode_table_value', ENC + 'field_table', ENC + 'field_array'],
                     lemmas=['contracts.lemmas.c11_toggle', 'contracts.lemmas.c11_toggle_default'],
-                    ground=['C11.switch-default'], floor=150,
+                    ground=['C11.switch-default', 'env.import-state'], floor=150,
                     assumptions=['the legacy switch holds a bool (the setter stores its argument unchecked)']),
 }
 
@@ -328,3 +329,4 @@ PROPS = {
 from props import ground as _ground_units  # noqa: E402,F401  (registers the ground tables)
 from props import selfcheck as _selfcheck  # noqa: E402,F401
 from props import speclemmas as _speclemmas  # noqa: E402,F401
+from props import ground2 as _ground2  # noqa: E402,F401
